@@ -160,7 +160,9 @@ def cell_to_box(cell):
     cx = c * math.cos(be)
     cy = c * (math.cos(al) - math.cos(be) * math.cos(ga)) / math.sin(ga)
     cz2 = c * c - cx * cx - cy * cy
-    if cz2 <= 0:
+    # non-degenerate cells only: the third vector keeps at least 5 % of its length out of the
+    # a/b plane (alpha = beta = gamma = 120 is planar; rounding leaves cz2 ~ 1e-15 > 0)
+    if cz2 <= (0.05 * c) ** 2:
         return None
     box = np.array([[a, 0, 0], [bx, by, 0], [cx, cy, math.sqrt(cz2)]], dtype=np.float64)
     # exact zeros for right angles (cos(pi/2) is 6e-17 in floating point)
